@@ -81,6 +81,20 @@ CHECKS = {
             'coarse-fragment and atomistic level; parsed attributes must equal the record with documented defaults and '
             'types, stay on the coarse node, and appear on every fine copy of the annotated atom.',
             '4/C14', ''),
+    'C16': ('property-based testing: generated sampler configurations, invariant over the output and the reconstructed growth history (model of open descriptors)',
+            'Sampler configurations are generated (fragments, descriptors, reactivity / conditional tables, terminal sets, '
+            'seeds, targets); every returned molecule is checked for connectivity, canonical numbering, tree-of-copies '
+            'structure, complementary descriptor pairs of equal order, descriptor usage replayed on a model of open '
+            'descriptors, copy-template isomorphism, and valence completeness for all-atom samples; exceptions are '
+            'accepted only where a dead end was reachable.',
+            '4/C16', 'The sampler\'s add_fragment is wrapped by the harness only to record the state before each growth step (dead-end classification). '),
+    'C17': ('property-based testing: history oracle for weights/reactivities/terminals, reproducibility differential, Hypothesis stateful machine, sub-process hash-seed differential',
+            'On the same generated configurations: stopping rule on the summed masses, element-derived masses vs an '
+            'independent table, explicit-zero reactivities and conditional reactivities never chosen, terminal rules via '
+            'final descriptor lists, construct+sample twice equal; a RuleBasedStateMachine interleaves other '
+            'constructions, resolver calls, foreign random draws and re-seeding between construct/sample pairs; the '
+            'same batch is sampled in fresh interpreters under different hash seeds.',
+            '4/C17', ''),
 }
 
 NOT_BUILT = {}
